@@ -60,7 +60,7 @@ Qed.
 
 (* ---- equal entries => equal heads and (total ordering) equal values ---- *)
 Theorem C01_same_entries_same_view ops r1 r2 l1 l2 :
-  wf ops -> Z.of_nat (length ops) < two63 ->
+  wf ops -> hist_bound ops < two63 ->
   nth_error (s_logs (run ops)) r1 = Some l1 -> nth_error (s_logs (run ops)) r2 = Some l2 ->
   same_entries l1 l2 ->
   (forall k e, In (k, e) (l_heads l1) <-> In (k, e) (l_heads l2)) /\
